@@ -275,6 +275,33 @@ func clStatsExhaustive(c *Ctx) {
 				}
 			}
 		}
+		// or through a drain helper: h(&recv.f, &src.f) whose body adds *src atomically into *dst and zeroes *src
+		for _, in := range p.Info(merge).Instrs {
+			cc := callOf(in)
+			if cc == nil || cc.StaticCallee() == nil || len(cc.Args) < 2 {
+				continue
+			}
+			h := cc.StaticCallee()
+			if h.Blocks == nil || h.Package() != merge.Package() {
+				continue
+			}
+			df, db := addrField(cc.Args[len(cc.Args)-2])
+			sf, sb := addrField(cc.Args[len(cc.Args)-1])
+			if df != f || sf != f || strip(db) != recv || strip(sb) != src {
+				continue
+			}
+			hd, hs := ssa.Value(h.Params[len(h.Params)-2]), ssa.Value(h.Params[len(h.Params)-1])
+			for _, hin := range p.Info(h).Instrs {
+				if k, addr := atomicOp(hin); k == "Add" && addr == hd {
+					if ld, ok := callOf(hin).Args[1].(*ssa.UnOp); ok && ld.X == hs {
+						added = true
+					}
+				}
+				if st, ok := hin.(*ssa.Store); ok && st.Addr == hs && isConstInt(0)(st.Val) {
+					zeroed = true
+				}
+			}
+		}
 		c.Check(added, merge, nil, "Merge adds "+f.Name()+" atomically into the receiver", "a statistics field is not merged: local (writer/worker/segment) contributions to "+f.Name()+" are lost")
 		c.Check(zeroed, merge, nil, "Merge zeroes "+f.Name()+" in the source", "a merged local counter is not reset: it is added again by the next merge")
 		// Apply reads it
